@@ -4,7 +4,7 @@ import FiberModel.Generated.C06Facts
 /-
 Driver for C06. Case fields (after the id):
   cfg  req0  later(`;`-separated requests or `-`)  implObs
-cfg     := imm(0/1)[,cs][,ipv][,ph][,split][,tp]     (flags in this order)
+cfg     := imm(0/1)[,cs][,ipv][,ph][,split][,srv][,tp]     (flags in this order)
 request := proto|name|rest|query|headers|cookies|host|body   (pairs: `hexk=hexv,…` or `-`;
            body: `n` | `r:<hex>` | `f:<pairs>` | `j:<pairs>` | `m:<pairs>~<file pairs>` |
                  `z:<hex list of encodings>:<hex list of layers>`)
@@ -26,14 +26,14 @@ def parseCfg (s : String) : Option Cfg :=
   | i :: flags => do
     let imm ← if i == "1" then some true else if i == "0" then some false else none
     -- canonical spelling only: known flags, strictly ascending
-    let known := ["cs", "ipv", "ph", "split", "tp"]
+    let known := ["cs", "ipv", "ph", "split", "srv", "tp"]
     if !(flags.all known.contains) then none
     let rec asc : List String → Bool
       | a :: b :: r => a < b && asc (b :: r)
       | _ => true
     if !asc flags then none
     some { imm, cs := flags.contains "cs", ipv := flags.contains "ipv", ph := flags.contains "ph",
-           split := flags.contains "split", tp := flags.contains "tp" }
+           split := flags.contains "split", tp := flags.contains "tp", srv := flags.contains "srv" }
   | [] => none
 
 def parseReq (s : String) : Option Req :=
@@ -167,7 +167,7 @@ def handleCase (f : List String) : Except String Verdict := do
       modelParts := modelParts ++ [s!"{acc}={renderObs text text after}"]
     let tags := [if imm then "immutable" else "mutable", s!"later{min laterN 9}", s!"body-{q.bkind}"] ++
       (if cfg.cs then ["cs"] else []) ++ (if cfg.split then ["split"] else []) ++ (if cfg.ph then ["ph"] else []) ++
-      (if cfg.ipv then ["ipv"] else []) ++ (if cfg.tp then ["tp"] else []) ++
+      (if cfg.ipv then ["ipv"] else []) ++ (if cfg.tp then ["tp"] else []) ++ (if cfg.srv then ["real-server"] else []) ++
       (if nosem > 0 then ["has-nosem"] else []) ++ (if views > 0 then ["table-says-view"] else []) ++
       (if imm && laterN > 0 then ["nt"] else [])
     pure { id := id, modelObs := ";".intercalate modelParts, implObs := impl, spec := fail, tags := tags }
